@@ -435,7 +435,7 @@ bool judge(const Cfg& c, const Plan& p, const Outcome& o, const std::string& pat
         }
     } else {
         // outcome (ii)
-        if (!fired && p.kind != "none") { /* the plan never fired and the run failed anyway: same as a failing fault-free run */ }
+        // a run in which nothing was injected and that fails anyway is a failing fault-free run
         if (!fired) viol("writer/fault-free-history-fails/" + c.ext(), "no fault fired but " + where_name(c, o) + " threw " + o.ex_type + ": " + o.ex_what);
         if (!o.refusal.empty()) viol("writer/no-refusal-after-error/" + tag, o.refusal + "first exception came from " + where_name(c, o) + " (" + o.ex_what + ")");
     }
@@ -508,13 +508,13 @@ std::vector<Plan> plans_for(const Cfg& c, const Dry& d, bool thorough) {
         return v;
     }
     const bool stdio = c.comp == "bz2";         // libbz2 writes through stdio: write() inside libc is not interposable
-    const bool every = thorough ? (c.hist != 'H') : (c.hist == 'A' && !c.paced);
-    const long stride = c.hist == 'H' ? 997 : c.hist == 'L' ? 61 : 7;
+    const bool every = thorough ? (c.hist != 'H' && !(c.hist == 'L' && c.paced)) : (c.hist == 'A' && !c.paced);
+    const long stride = c.hist == 'H' ? 997 : c.hist == 'L' ? (thorough ? 13 : 61) : 7;
     const std::vector<long> offs = offsets(d.size, every, stride);
     for (long o : offs) add("rlimit", o, EFBIG);
     if (!stdio) {
         for (long o : offs) add("write_off", o, (o & 1) ? EIO : ENOSPC);
-        if (thorough) for (long o : offs) add("write_off", o, (o & 1) ? ENOSPC : EIO);
+        if (thorough && c.hist != 'L') for (long o : offs) add("write_off", o, (o & 1) ? ENOSPC : EIO);
         for (int n = 1; n <= d.st.n_write; ++n) { add("write_nth", n, ENOSPC); add("write_nth", n, EIO); add("write_eintr", n, EINTR); }
         for (long m : offsets(d.st.max_write_len, every, stride)) if (m >= 1) add("write_short", m, 0);
         for (int n = 1; n <= d.st.n_close; ++n) { add("close_nth", n, EIO); add("close_nth", n, ENOSPC); }
@@ -545,14 +545,14 @@ std::vector<Group> groups(bool T) {
         g.push_back(gr);
     }
     product(std::string("history A, paced producer (errors surface from operator()/flush()), queue 20, pool 2: ") + (T ? "every byte offset" : "offsets strided by 7 + buffer boundaries"), 'A', 20, 2, 1);
-    product(std::string("history B (512 byte internal buffer): ") + (T ? "every byte offset" : "offsets strided by 7 + buffer boundaries"), 'B', 2, 2, 0);
+    product(std::string("history B (512 byte internal buffer, operator()(Item) flushes by itself), paced producer: ") + (T ? "every byte offset" : "offsets strided by 7 + buffer boundaries"), 'B', 2, 2, 1);
     {
         Group gr; gr.name = "history H (bzip2 input > one 600k block): offsets strided by 997 + buffer boundaries, every stdio call index";
         for (int fs = 0; fs < 2; ++fs) gr.cfgs.push_back(Cfg{"osm", "bz2", fs, 'H', 20, 2, 0});
         g.push_back(gr);
     }
     product(std::string("history L (output larger than the zlib/stdio buffers): ") + (T ? "every byte offset" : "offsets strided by 61 + buffer boundaries"), 'L', 3, 2, 0);
-    if (T) product("history L, paced producer: every byte offset", 'L', 20, 1, 1);
+    if (T) product("history L, paced producer: offsets strided by 13 + buffer boundaries", 'L', 20, 1, 1);
     return g;
 }
 
